@@ -155,7 +155,7 @@ class HarnessError(Exception):
     pass
 
 
-def hash_sweep(modname, funcname, seeds, timeout=900):
+def hash_sweep(modname, funcname, seeds, timeout=900, extra_env=None):
     """Own the one source of nondeterminism a single process cannot vary: string hashing (set / dict-of-set iteration order).
     Runs `modname.funcname()` (must return something JSON-serialisable) in one fresh interpreter per PYTHONHASHSEED value
     and returns {seed: result}.  The hed cache directory and VERIF_REPO are inherited."""
@@ -168,6 +168,7 @@ def hash_sweep(modname, funcname, seeds, timeout=900):
 
     def one(seed):
         env = dict(os.environ, PYTHONHASHSEED=str(seed))
+        env.update(extra_env or {})     # e.g. a locale: another part of the environment one process cannot vary
         p = subprocess.run([sys.executable, "-c", code], capture_output=True, text=True, timeout=timeout, env=env, cwd=VERIF)
         if p.returncode != 0 or "@@SWEEP@@" not in p.stdout:
             raise HarnessError(f"hash sweep child failed (seed {seed}): {p.stderr[-600:]}")
